@@ -241,7 +241,7 @@ Notation acts := (actions ms).
 
 (* the type assignment the specification talks about: a list rule -> type *)
 Definition term_has_ty (rtl : list (nat * ty)) (t : bool * nat) (s : ty) : Prop :=
-  if fst t then s = (if snd t =? 1 then err else tok) else In (snd t, s) rtl.
+  if fst t then s = terminal_ty tok err (snd t) else In (snd t, s) rtl.
 
 (* matchMethod's test, as a proposition: same length, and each parameter
    type accepts the type of the term at its position by Go assignability *)
@@ -272,7 +272,7 @@ Lemma term_ity_has_ty : forall rt t s,
 Proof.
   intros rt [b i] s Hwf. unfold term_ity, term_has_ty, wf_term in *. simpl in *.
   destruct b; simpl in *.
-  - destruct (i =? 1); split; intros H; congruence.
+  - split; intros H; congruence.
   - rewrite rule_types_in. apply andb_prop in Hwf. destruct Hwf as [Hlt _].
     apply Nat.ltb_lt in Hlt. tauto.
 Qed.
@@ -369,7 +369,7 @@ Qed.
 Definition rt_final (rt : rtypes) : Prop :=
   phase0_errs ms = [] /\
   phase1_errs o rules acts = [] /\
-  derive o tok rules prods (derive_fuel rules) (phase1_types o rules acts) = DvOk rt /\
+  derive o tok err rules prods (derive_fuel rules) (phase1_types o rules acts) = DvOk rt /\
   missing_rules rules rt = [].
 
 Lemma assign_ok_inv : forall b rtl,
@@ -387,7 +387,7 @@ Proof.
   unfold assign_actions_wf in H.
   destruct (phase0_errs ms) eqn:E0; [|discriminate].
   destruct (phase1_errs o rules acts) eqn:E1; [|discriminate].
-  destruct (derive o tok rules prods (derive_fuel rules) (phase1_types o rules acts))
+  destruct (derive o tok err rules prods (derive_fuel rules) (phase1_types o rules acts))
     as [s| |rt] eqn:Ed; try discriminate.
   destruct (missing_rules rules rt) eqn:E3; [|discriminate].
   destruct (phase4_panics o tok err rules prods rt acts) eqn:Ep; [discriminate|].
@@ -404,7 +404,7 @@ Lemma assign_err_inv : forall ds,
      (phase0_errs ms = [] /\ e = phase1_errs o rules acts) \/
      (phase0_errs ms = [] /\ phase1_errs o rules acts = [] /\
       exists rt,
-        derive o tok rules prods (derive_fuel rules) (phase1_types o rules acts) = DvOk rt /\
+        derive o tok err rules prods (derive_fuel rules) (phase1_types o rules acts) = DvOk rt /\
         (e = missing_rules rules rt \/
          (rt_final rt /\ e = phase4_errs o tok err rules prods rt acts) \/
          (rt_final rt /\ phase4_errs o tok err rules prods rt acts = [] /\
@@ -419,7 +419,7 @@ Proof.
   destruct (phase1_errs o rules acts) eqn:E1.
   2:{ rewrite <- E1 in H. injection H as Hds; subst ds. eexists. split; [reflexivity|].
       split; [rewrite E1; discriminate|]. auto. }
-  destruct (derive o tok rules prods (derive_fuel rules) (phase1_types o rules acts))
+  destruct (derive o tok err rules prods (derive_fuel rules) (phase1_types o rules acts))
     as [s| |rt] eqn:Ed; try discriminate.
   destruct (missing_rules rules rt) eqn:E3.
   2:{ rewrite <- E3 in H. injection H as Hds; subst ds. eexists. split; [reflexivity|].
@@ -450,7 +450,7 @@ Definition is_plus (k : rkind') : Prop := k = OneOrMore \/ k = OneOrMoreF \/ k =
 Definition is_star (k : rkind') : Prop := k = ZeroOrMore \/ k = ZeroOrMoreF.
 
 Definition elem_type (ht : nat -> ty -> Prop) (x : bool * nat) (t : ty) : Prop :=
-  (fst x = true /\ t = tok) \/ (fst x = false /\ ht (snd x) t).
+  (fst x = true /\ t = terminal_ty tok err (snd x)) \/ (fst x = false /\ ht (snd x) t).
 
 Inductive has_type : nat -> ty -> Prop :=
 | HT_meth : forall i r f others,
@@ -459,28 +459,28 @@ Inductive has_type : nat -> ty -> Prop :=
 | HT_opt : forall i r p0 rest p x xs t,
     nth_error rules i = Some r -> br_kind r = ZeroOrOne ->
     br_prods r = p0 :: rest -> nth_error prods p0 = Some p -> bp_terms p = x :: xs ->
-    ((fst x = true /\ t = tok) \/ (fst x = false /\ has_type (snd x) t)) ->
+    ((fst x = true /\ t = terminal_ty tok err (snd x)) \/ (fst x = false /\ has_type (snd x) t)) ->
     has_type i t
 | HT_plus : forall i r q p1 rest p x xs t,
     nth_error rules i = Some r -> is_plus (br_kind r) ->
     br_prods r = q :: p1 :: rest -> nth_error prods p1 = Some p -> bp_terms p = x :: xs ->
-    ((fst x = true /\ t = tok) \/ (fst x = false /\ has_type (snd x) t)) ->
+    ((fst x = true /\ t = terminal_ty tok err (snd x)) \/ (fst x = false /\ has_type (snd x) t)) ->
     has_type i (slice_of o t)
 | HT_star : forall i r p0 rest p c xs rc q p1 rest' pc x xs' t,
     nth_error rules i = Some r -> is_star (br_kind r) ->
     br_prods r = p0 :: rest -> nth_error prods p0 = Some p -> bp_terms p = (false, c) :: xs ->
     nth_error rules c = Some rc -> is_plus (br_kind rc) ->
     br_prods rc = q :: p1 :: rest' -> nth_error prods p1 = Some pc -> bp_terms pc = x :: xs' ->
-    ((fst x = true /\ t = tok) \/ (fst x = false /\ has_type (snd x) t)) ->
+    ((fst x = true /\ t = terminal_ty tok err (snd x)) \/ (fst x = false /\ has_type (snd x) t)) ->
     has_type i (slice_of o t).
 
 Definition rt_sound (rt : rtypes) : Prop := forall i t, rt_get rt i = IT t -> has_type i t.
 
 Definition first_term_spec (rt : rtypes) (x : bool * nat) (e : ity) : Prop :=
-  (fst x = true /\ e = IT tok) \/ (fst x = false /\ e = rt_get rt (snd x)).
+  (fst x = true /\ e = IT (terminal_ty tok err (snd x))) \/ (fst x = false /\ e = rt_get rt (snd x)).
 
 Lemma first_term_inv : forall rt p e,
-  first_term_ity tok rt p = Some e ->
+  first_term_ity tok err rt p = Some e ->
   exists x xs, bp_terms p = x :: xs /\ first_term_spec rt x e.
 Proof.
   intros rt p e H. unfold first_term_ity in H. unfold first_term_spec.
@@ -496,7 +496,7 @@ Proof. intros [|t0|e]; simpl; discriminate. Qed.
 
 Lemma first_term_sound : forall rt x t,
   rt_sound rt -> first_term_spec rt x (IT t) ->
-  (fst x = true /\ t = tok) \/ (fst x = false /\ has_type (snd x) t).
+  (fst x = true /\ t = terminal_ty tok err (snd x)) \/ (fst x = false /\ has_type (snd x) t).
 Proof.
   intros rt x t Hs [[H1 H2]|[H1 H2]].
   - left. inversion H2. auto.
@@ -505,7 +505,7 @@ Qed.
 
 Lemma reduce_plus_inv : forall f rt c rc pi t,
   nth_error rules c = Some rc -> is_plus (br_kind rc) ->
-  reduce_type o tok rules prods (S f) rt c pi = RT t -> t <> INil ->
+  reduce_type o tok err rules prods (S f) rt c pi = RT t -> t <> INil ->
   exists q rest p x xs e,
     br_prods rc = q :: pi :: rest /\ nth_error prods pi = Some p /\
     bp_terms p = x :: xs /\ t = islice o e /\ first_term_spec rt x e.
@@ -516,7 +516,7 @@ Proof.
                  if negb (pi =? p1) then RT INil else
                  match nth_error prods pi with
                  | None => RP PBadIndex
-                 | Some p => match first_term_ity tok rt p with
+                 | Some p => match first_term_ity tok err rt p with
                              | None => RP PIdxTerms
                              | Some t => RT (islice o t)
                              end
@@ -529,7 +529,7 @@ Proof.
   2:{ inversion H'. congruence. }
   apply Nat.eqb_eq in E. subst p1.
   destruct (nth_error prods pi) as [p|] eqn:Ep; [|discriminate].
-  destruct (first_term_ity tok rt p) as [e|] eqn:Ef; [|discriminate].
+  destruct (first_term_ity tok err rt p) as [e|] eqn:Ef; [|discriminate].
   inversion H'; subst. apply first_term_inv in Ef. destruct Ef as [x [xs [Hx Hsp]]].
   exists q, rest, p, x, xs, e. auto.
 Qed.
@@ -581,7 +581,7 @@ Qed.
 
 Lemma reduce_type_sound : forall rt ri pi t,
   wf_input rules prods ms = true -> rt_sound rt ->
-  reduce_type o tok rules prods reduce_fuel rt ri pi = RT (IT t) -> has_type ri t.
+  reduce_type o tok err rules prods reduce_fuel rt ri pi = RT (IT t) -> has_type ri t.
 Proof.
   intros rt ri pi t Hwf Hs H. unfold reduce_fuel in H.
   destruct (nth_error rules ri) as [r|] eqn:Hn.
@@ -610,7 +610,7 @@ Proof.
               | Some rc =>
                 match br_prods rc with
                 | _ :: p1 :: _ =>
-                  match reduce_type o tok rules prods f1 rt c p1 with
+                  match reduce_type o tok err rules prods f1 rt c p1 with
                   | RP s => RP s
                   | RT INil => RP PAssertNil
                   | RT t => RT t
@@ -629,7 +629,7 @@ Proof.
     destruct (bp_terms p) as [|[[|] c] xs] eqn:Hx; try discriminate.
     destruct (nth_error rules c) as [rc|] eqn:Hnc; [|discriminate].
     destruct (br_prods rc) as [|q [|p1 rest']] eqn:Hpc; try discriminate.
-    destruct (reduce_type o tok rules prods f1 rt c p1) as [s|t'] eqn:Hin; [discriminate|].
+    destruct (reduce_type o tok err rules prods f1 rt c p1) as [s|t'] eqn:Hin; [discriminate|].
     assert (Ht' : t' = IT t) by (destruct t'; congruence). subst t'. clear H'.
     subst f1.
     assert (Hkc : is_plus (br_kind rc)).
@@ -653,7 +653,7 @@ Proof.
     destruct (pi =? p0) eqn:E; simpl in H; [|discriminate].
     apply Nat.eqb_eq in E. subst p0.
     destruct (nth_error prods pi) as [p|] eqn:Hnp; [|discriminate].
-    destruct (first_term_ity tok rt p) as [e|] eqn:Ef; [|discriminate].
+    destruct (first_term_ity tok err rt p) as [e|] eqn:Ef; [|discriminate].
     inversion H; subst. apply first_term_inv in Ef. destruct Ef as [x [xs [Hx Hsp]]].
     eapply HT_opt; eauto. eapply first_term_sound; eauto.
 Qed.
@@ -661,14 +661,14 @@ Qed.
 
 (* one step of `pass` *)
 Lemma pass_cons : forall ip rest rt ch,
-  pass o tok rules prods (ip :: rest) rt ch =
-  match reduce_type o tok rules prods reduce_fuel rt (bp_rule (snd ip)) (fst ip) with
+  pass o tok err rules prods (ip :: rest) rt ch =
+  match reduce_type o tok err rules prods reduce_fuel rt (bp_rule (snd ip)) (fst ip) with
   | RP s => PPanic s
-  | RT INil => pass o tok rules prods rest rt ch
+  | RT INil => pass o tok err rules prods rest rt ch
   | RT t =>
     match rt_get rt (bp_rule (snd ip)) with
-    | INil => pass o tok rules prods rest ((bp_rule (snd ip), t) :: rt) true
-    | ex => if ity_identical o ex t then pass o tok rules prods rest rt ch
+    | INil => pass o tok err rules prods rest ((bp_rule (snd ip), t) :: rt) true
+    | ex => if ity_identical o ex t then pass o tok err rules prods rest rt ch
             else PPanic PAssertIdentical
     end
   end.
@@ -677,14 +677,14 @@ Proof. reflexivity. Qed.
 (* a property of the type table that every step of the fixed point keeps *)
 Lemma pass_invariant : forall (P : rtypes -> Prop),
   (forall rt k t pi, P rt -> rt_get rt k = INil -> t <> INil ->
-     reduce_type o tok rules prods reduce_fuel rt k pi = RT t -> P ((k, t) :: rt)) ->
+     reduce_type o tok err rules prods reduce_fuel rt k pi = RT t -> P ((k, t) :: rt)) ->
   forall ps rt ch rt' ch',
-    P rt -> pass o tok rules prods ps rt ch = PDone rt' ch' -> P rt'.
+    P rt -> pass o tok err rules prods ps rt ch = PDone rt' ch' -> P rt'.
 Proof.
   intros P Hstep. induction ps as [|ip rest IH]; intros rt ch rt' ch' HP H.
   - simpl in H. inversion H; subst; auto.
   - rewrite pass_cons in H.
-    destruct (reduce_type o tok rules prods reduce_fuel rt (bp_rule (snd ip)) (fst ip))
+    destruct (reduce_type o tok err rules prods reduce_fuel rt (bp_rule (snd ip)) (fst ip))
       as [s|t] eqn:Er; [discriminate|].
     destruct t as [|t0|e].
     + eapply IH; eauto.
@@ -700,11 +700,11 @@ Qed.
 
 Lemma derive_invariant : forall (P : rtypes -> Prop),
   (forall rt k t pi, P rt -> rt_get rt k = INil -> t <> INil ->
-     reduce_type o tok rules prods reduce_fuel rt k pi = RT t -> P ((k, t) :: rt)) ->
-  forall fuel rt rt', P rt -> derive o tok rules prods fuel rt = DvOk rt' -> P rt'.
+     reduce_type o tok err rules prods reduce_fuel rt k pi = RT t -> P ((k, t) :: rt)) ->
+  forall fuel rt rt', P rt -> derive o tok err rules prods fuel rt = DvOk rt' -> P rt'.
 Proof.
   intros P Hstep. induction fuel as [|f IH]; intros rt rt' HP H; simpl in H; [discriminate|].
-  destruct (pass o tok rules prods (indexed prods) rt false) as [s|rt1 ch] eqn:Ep; [discriminate|].
+  destruct (pass o tok err rules prods (indexed prods) rt false) as [s|rt1 ch] eqn:Ep; [discriminate|].
   assert (P rt1) by (eapply pass_invariant; eauto).
   destruct ch.
   - eapply IH; eauto.
@@ -713,7 +713,7 @@ Qed.
 
 Lemma derive_sound : forall fuel rt rt',
   wf_input rules prods ms = true -> rt_sound rt ->
-  derive o tok rules prods fuel rt = DvOk rt' -> rt_sound rt'.
+  derive o tok err rules prods fuel rt = DvOk rt' -> rt_sound rt'.
 Proof.
   intros fuel rt rt' Hwf. apply derive_invariant.
   intros rt0 k t pi Hs Hnil Ht Hr i t1 Hg. simpl in Hg.
@@ -724,7 +724,7 @@ Qed.
 
 (* existing entries are never changed *)
 Lemma derive_mono : forall fuel rt rt' i,
-  derive o tok rules prods fuel rt = DvOk rt' ->
+  derive o tok err rules prods fuel rt = DvOk rt' ->
   rt_get rt i <> INil -> rt_get rt' i = rt_get rt i.
 Proof.
   intros fuel rt rt' i H Hi.
@@ -960,7 +960,7 @@ Qed.
 Lemma missing_culprit : forall rt d,
   wf_input rules prods ms = true ->
   phase1_errs o rules acts = [] ->
-  derive o tok rules prods (derive_fuel rules) (phase1_types o rules acts) = DvOk rt ->
+  derive o tok err rules prods (derive_fuel rules) (phase1_types o rules acts) = DvOk rt ->
   In d (missing_rules rules rt) -> culprit_ok d.
 Proof.
   intros rt d Hwf H1 Hd H. unfold missing_rules in H. apply in_flat_map in H.
